@@ -392,7 +392,7 @@ func runBatch(tag string, scs []Scenario, vs ValidateSpec, workDir string, timeo
 		return o
 	}
 	if werr != nil {
-		// A watchdog exit (3) or a crash: find the scenario that was running.
+		// A watchdog exit (3), a crash or a timeout of the child: find the scenario that was running.
 		running := -1
 		for i, r := range jr.Results {
 			if r.Hang == "running" {
@@ -400,51 +400,43 @@ func runBatch(tag string, scs []Scenario, vs ValidateSpec, workDir string, timeo
 			}
 		}
 		hang, _ := os.ReadFile(filepath.Join(workDir, tag+".hang.json"))
-		if running >= 0 && len(scs) > 1 && depth < 2 {
-			// isolate: rerun the culprit alone and the others without it
-			for i := range scs {
-				if i == running {
-					continue
-				}
+		what := "process died: " + werr.Error() + " " + Tail(childOut, 15)
+		if len(hang) > 0 {
+			what = "call did not return within the deadline: " + strings.TrimSpace(string(hang))
+		}
+		merge := func(x BatchOutcome) {
+			o.Findings = append(o.Findings, x.Findings...)
+			o.Infra = append(o.Infra, x.Infra...)
+			for k, v := range x.Counters {
+				o.Counters[k] += v
 			}
+			for k, v := range x.PerScenario {
+				o.PerScenario[k] = v
+			}
+			o.Traces += x.Traces
+			o.Events += x.Events
+			o.TLCStates += x.TLCStates
+			o.Samples = append(o.Samples, x.Samples...)
+		}
+		switch {
+		case running < 0:
+			o.Infra = append(o.Infra, fmt.Sprintf("child %s: %v: %s", tag, werr, Tail(childOut, 10)))
+		case len(scs) > 1 && depth < 3:
+			// isolate: the culprit alone (second execution = confirmation), the others without it
 			rest := append(append([]Scenario{}, scs[:running]...), scs[running+1:]...)
-			merge := func(x BatchOutcome) {
-				o.Findings = append(o.Findings, x.Findings...)
-				o.Infra = append(o.Infra, x.Infra...)
-				for k, v := range x.Counters {
-					o.Counters[k] += v
-				}
-				for k, v := range x.PerScenario {
-					o.PerScenario[k] = v
-				}
-				o.Traces += x.Traces
-				o.Events += x.Events
-				o.TLCStates += x.TLCStates
-				o.Samples = append(o.Samples, x.Samples...)
-			}
-			merge(runBatch(tag+"r", rest, vs, workDir, timeout, depth+1))
 			merge(runBatch(tag+"c", []Scenario{scs[running]}, vs, workDir, timeout, depth+1))
-			return o
-		}
-		if running >= 0 && len(scs) == 1 {
-			// confirmed once more on its own: a deterministic hang / crash of the real code
-			if depth >= 1 || true {
-				jr2, _, werr2 := runChild(tag+"x", scs, workDir, timeout)
-				_ = jr2
-				if werr2 != nil {
-					h2, _ := os.ReadFile(filepath.Join(workDir, tag+"x.hang.json"))
-					if len(h2) > 0 || len(hang) > 0 {
-						o.Findings = append(o.Findings, Finding{Scenario: scs[0], Spec: "harness", Detail: "call did not return within the deadline (twice): " + strings.TrimSpace(string(h2)+string(hang))})
-						return o
-					}
-					o.Findings = append(o.Findings, Finding{Scenario: scs[0], Spec: "harness", Detail: "process died (twice): " + werr2.Error() + " " + Tail(childOut, 15)})
-					return o
-				}
+			merge(runBatch(tag+"r", rest, vs, workDir, timeout, depth+1))
+		case depth > 0:
+			// failed inside its batch and again on its own: a reproducible hang / crash of the real code
+			o.Findings = append(o.Findings, Finding{Scenario: scs[0], Spec: "harness", Detail: what + " (twice)"})
+		default:
+			_, out2, werr2 := runChild(tag+"x", scs, workDir, timeout)
+			if werr2 != nil && !errors.Is(werr2, ErrHarness) {
+				o.Findings = append(o.Findings, Finding{Scenario: scs[0], Spec: "harness", Detail: what + " (twice) " + Tail(out2, 5)})
+			} else {
 				o.Infra = append(o.Infra, fmt.Sprintf("child %s failed once (%v) but not on re-run: %s", tag, werr, Tail(childOut, 5)))
-				return o
 			}
 		}
-		o.Infra = append(o.Infra, fmt.Sprintf("child %s: %v: %s", tag, werr, Tail(childOut, 10)))
 		return o
 	}
 	byName := map[string]Scenario{}
